@@ -13,6 +13,10 @@
 (*   Yield     {fid, v}      Suspend {fid}     Resume {fid}   Rebind {..}  *)
 (*   Return    {fid, v}      Raise {fid}       Propagate {fid}  Throw{fid} *)
 (*   Drop      {fid}         a suspended generator is abandoned            *)
+(*   Delegate  {fid}         first entry of fid through `yield from` /     *)
+(*                           `await` in another fixture frame; from then   *)
+(*                           on the program logs a Yield / Suspend for     *)
+(*                           EVERY frame of the delegation chain           *)
 (*   Log       {f, args:[{n, ty}], ret, ys}    ret/ys = absent-sentinel    *)
 (*   End       {resid}       resid = finished frames still held by tracer  *)
 (*   Stat      {n, traced, lo, hi}   seeded run with the real RNG (C18)    *)
@@ -96,7 +100,7 @@ Step ==
             /\ frames' = Append(frames, [f |-> e.f, wanted |-> e.wanted, args |-> ArgSetV(e.args), ys |-> {},
                                          must |-> (e.kind = "plain" /\ e.drawn /\ e.draw = 0), entered |-> (e.kind = "plain")])
             /\ UNCHANGED <<pending, viol>>
-       [] e.ev = "Resume" ->
+       [] e.ev \in {"Resume", "Delegate"} ->
             \* the first resumption of a generator / coroutine is its entry
             /\ frames' = IF frames[e.fid].entered THEN frames
                           ELSE [frames EXCEPT ![e.fid].entered = TRUE, ![e.fid].must = (e.drawn /\ e.draw = 0)]
